@@ -1788,7 +1788,7 @@ impl<'a> World<'a> {
         // keeps the completion queue alive, and whatever sits in it is then released there)
         let late_job = self.ids.values().any(|s| s.pool_submit.is_some());
         if late_job {
-            let deadline = Instant::now() + Duration::from_millis(400);
+            let deadline = Instant::now() + Duration::from_millis(3000);
             loop {
                 self.collect();
                 let missing = (0..self.ops.len()).any(|i| {
